@@ -7,6 +7,9 @@ CONSTANTS NB = 4
  BugAddMiddle = FALSE
  BugTxLoopVar = FALSE
  BugConfirmRace = FALSE
+ MaxBatch = 0
+ NBatch = 0
+ BugBatchBreak = FALSE
 INVARIANTS TypeOK ChainLinear Converges CacheSorted CacheKeepsUntilParent CacheOnlyWaiting ConfirmsKept TxOnce
 PROPERTY Forward
 CHECK_DEADLOCK FALSE
